@@ -167,7 +167,7 @@ def _op2d(cfg, B):
     nx, ny = cfg['nx'], cfg['ny']
     n = nx * ny
     model = fd.euler.euler2d(gamma=B.const(cfg['gamma']))
-    mesh = fd.mesh2d.mesh2d(nx, ny, B.pos('lx', 0.5, 3.0), B.pos('ly', 0.5, 3.0))
+    mesh = cm.mesh2d(B, fd, nx, ny, B.pos('lx', 0.5, 3.0), B.pos('ly', 0.5, 3.0))
     a, c = B.pos('a0'), B.pos('c0')
     rho = a * a
     p = rho * c * c / model.gamma
